@@ -13,12 +13,12 @@ func init() {
 	register("C14", "Decides structural necessary conditions of 'storing issuance chains outside the backend is invisible to readers': "+
 		"(R1) every function of the front end that issues the backend's GetLeavesByRange / GetEntryAndProof (the rpc* wrapper, or the handler itself) is a declared function with one call site and is bound by R2; each handler reaches its RPC exactly once, itself or through the one function it calls that issues it; "+
 		"(R2) a function that issues the RPC returns success only if FixLogLeaf returned nil for every leaf of the reply (the loop that fixes the leaves covers Leaves[0..len) and stands between the reply and every success return; a single leaf is skipped only when absent), its failure is a 500; "+
-		"(R3) FixLogLeaf: every error of the chain lookup, of its ASN.1 decoding (incl. trailing bytes) and of re-encoding is returned; leaf.ExtraData is stored only on all-success paths with the re-encoded full structure; a hash-form layout with a non-empty hash always goes through the lookup (the lookup is skipped only for an empty hash); full-chain layouts return nil without touching the leaf; no layout matched ⇒ error; each of the four layouts is taken only on an exact match (extra data that fails to decode as it, or decodes with bytes left over, reaches the next probe without any lookup, decoding, re-encoding, store through the leaf or success) every layout is probed before any verdict when the others do not match, and a rewrite is final (no layout is probed on the re-inflated bytes, nil is returned) — all of these decided on the value each return yields on the path that leads to it, whatever expression or local carries the verdict; "+
-		"(R4) writer and reader use the identical Go types: the writer stores asn1.Marshal(raw[1:]) of []ct.ASN1Cert under its hash and embeds (raw[0], hash); the reader decodes into []ct.ASN1Cert and re-inflates PrecertChainEntry{PreCertificate ← stored, CertificateChain ← chain} / CertificateChain{Entries ← chain} — the types the in-backend mode writes; "+
-		"(R5) add: key = SHA-256(chain), a storage error is returned, the cache is filled only after the storage write succeeded, a cache hit short-cuts only when err == nil and the entry is non-nil; getByHash: cache error or hit is returned as is, storage error is returned, the cache is filled only after a successful storage read; "+
+		"(R3) FixLogLeaf: every error of the chain lookup, of its ASN.1 decoding (incl. trailing bytes) and of re-encoding is returned; leaf.ExtraData is stored only on all-success paths with the re-encoded full structure; a hash-form layout with a non-empty hash always goes through the lookup (the lookup is skipped only for an empty hash); full-chain layouts return nil without touching the leaf; no layout matched ⇒ error; each of the four layouts is taken only on an exact match (extra data that fails to decode as it, or decodes with bytes left over, reaches the next probe without any lookup, decoding, re-encoding, store through the leaf or success) every layout is probed before any verdict when the others do not match, and a rewrite is final (no layout is probed on the re-inflated bytes, nil is returned); extra data that is exactly a hash layout is never answered with success as it is (from the match no return that may yield nil is reached before leaf.ExtraData was replaced); read per hypothetical length of the embedded hash, an empty hash needs no lookup and a non-empty hash of any length reaches the rewrite only through the lookup, and — when the writer embeds the empty hash for a path without issuers — an empty hash is expanded to the entry with an empty chain (with the re-encoding succeeding every return yields nil and the leaf is rewritten) — all of these decided on the value each return yields on the path that leads to it, whatever expression or local carries the verdict; "+
+		"(R4) writer and reader use the identical Go types: every leaf the writer builds — at however many places — embeds (raw[0], h) with h the hash add() returned for asn1.Marshal(raw[1:]) of []ct.ASN1Cert, or a hash of length 0 only for a path without issuers (decided per path length the function's length tests can tell apart, on the value the hash argument has on the paths that length allows), what it returns is a leaf so built, and every error on the way is its verdict; the reader decodes into []ct.ASN1Cert and re-inflates PrecertChainEntry{PreCertificate ← stored, CertificateChain ← chain} / CertificateChain{Entries ← chain} — the types the in-backend mode writes; "+
+		"(R5) add: key = SHA-256(chain), a storage error is returned, the cache is filled only after the storage write succeeded, a cache hit short-cuts only when err == nil and the entry is non-nil; getByHash: cache error or hit is returned as is, storage error is returned, the cache is filled only after a successful storage read — a local that function literals only read (the chain variable captured by the detached fill, assigned by the cache read and again by the storage read) is read where it stands: as the one assignment that reaches that read on every path, for a literal the one that reaches its making and is followed by none; "+
 		"(R6) a chain read from storage is compared with its key (SHA-256) before either use: before it is served and before it is handed to the cache (cache hits are served unchecked); (R7) the four extra-data layouts have the prefix widths and byte bounds FixLogLeaf's discrimination assumes (the tags compared as the codec parses them: order and spelling of the six documented clauses do not matter, a clause with another key counts as absent only if C09.R3 decides that it is an allocation hint); "+
 		"(R9) the cache only ever receives rows of the storage (what lets add skip the storage write on a cache hit): every call of the cache's Set anywhere in the module, followed through goroutines, helpers and wrappers to where its (key, chain) are produced, passes the chain read from storage under that key (and only once its SHA-256 has been compared with that key) or the pair just written to storage, only after that storage call succeeded; Set is never taken as a function value; the LRU behind the cache is inserted into only by Set with Set's own pair. "+
-		"NOT covered: mutual unambiguity of the four layouts for all byte strings, cache expiry/eviction timing, SQL storage behaviour, the detached cache.Set goroutine's schedule.",
+		"NOT covered: that a hash of length 0 cannot also be the SHA-256 of a stored chain is taken from SHA-256's output size, not decided; path lengths are told apart only by comparisons of len(raw) / len(raw[1:]) / len(chain) with constants (any other test leaves the writer's fact undecided = failed); mutual unambiguity of the four layouts for all byte strings, cache expiry/eviction timing, SQL storage behaviour, the detached cache.Set goroutine's schedule.",
 		runC14)
 }
 
@@ -127,6 +127,13 @@ func runC14(r *Run) {
 		}
 	}
 
+	// the writer first: whether it embeds the empty hash decides what the reader owes (rules_t8c14.go)
+	emptyWritten := true
+	r.Rule("C14.R4")
+	if fn := r.Fn("(*trillian/ctfe.indirectIssuanceChainService).BuildLogLeaf"); fn != nil {
+		emptyWritten = c14Writer(r, fn)
+	}
+
 	fix := r.Fn("(*trillian/ctfe.indirectIssuanceChainService).FixLogLeaf")
 	if fix != nil {
 		r.Rule("C14.R3")
@@ -150,6 +157,7 @@ func runC14(r *Run) {
 		for _, st := range stores {
 			sts = append(sts, st)
 		}
+		hashProbes := c14Probes(r, fix, "FixLogLeaf")
 		for _, hashType := range []string{"PrecertChainEntryHash", "CertificateChainHash"} {
 			var st ssa.Instruction
 			for _, s := range stores {
@@ -172,11 +180,19 @@ func runC14(r *Run) {
 					mine = append(mine, c)
 				}
 			}
+			var probe *c14Probe
+			for i := range hashProbes {
+				if hashProbes[i].typ == "ct."+hashType {
+					probe = &hashProbes[i]
+				}
+			}
 			if other := c14OtherLengthTest(r, fix, h); other != "" {
-				// the skip is decided by a comparison of the hash's length with something else than 0
-				r.Fail("FixLogLeaf:"+hashType+":lookup-unless-empty", r.FnPos(fix), "the chain lookup may be skipped only for an empty hash (len == 0), but what decides it is "+other+": a stored hash of another length would be re-inflated to an empty chain without any lookup")
+				// the skip is decided by a comparison of the hash's length with something else than 0:
+				// read what the function does per hypothetical length of the hash (rules_t8c14.go)
+				c14HashLengths(r, fix, hashType, h, probe, st.(*ssa.Store), mine, hashProbes, emptyWritten, true)
 				continue
 			}
+			c14HashLengths(r, fix, hashType, h, probe, st.(*ssa.Store), mine, hashProbes, emptyWritten, false)
 			r.MustGuardAfter(fix, "FixLogLeaf:"+hashType+":lookup-unless-empty", "ord(0, len("+h+"))", "=,>", mine, "chain lookup")
 			// and with a non-empty hash the store is unreachable without the lookup: from the length test the store is reached only through the lookup block
 			if len(mine) == 1 {
@@ -191,11 +207,12 @@ func runC14(r *Run) {
 		// full-chain layouts: return nil, no store.  A probe is the question "is the extra data exactly the
 		// TLS encoding of a T" — tls.Unmarshal in place, or a predicate helper verified to answer exactly
 		// that (c14Probes); the layout is named by the type decoded into, not by the local that receives it
-		probes := c14Probes(r, fix, "FixLogLeaf")
+		probes := hashProbes
 		// a layout is taken only on an exact match, and every layout gets its turn (rules_t6c14.go)
 		c14LayoutExact(r, fix, probes, stores)
 		c14LayoutTurn(r, fix, probes)
 		c14RewriteFinal(r, fix, probes, stores)
+		c14HashLayoutRewritten(r, fix, probes, stores)
 		for _, full := range []string{"ct.PrecertChainEntry", "ct.CertificateChain"} {
 			for _, p := range probes {
 				if p.typ != full {
@@ -267,21 +284,6 @@ func runC14(r *Run) {
 		c14ChainField(r, fix, "FixLogLeaf:precert.chain", "&(new:ct.PrecertChainEntry#0.CertificateChain)", "PrecertChainEntryHash")
 		c14ChainField(r, fix, "FixLogLeaf:x509.chain", "&(new:ct.CertificateChain#0.Entries)", "CertificateChainHash")
 	}
-	if fn := r.Fn("(*trillian/ctfe.indirectIssuanceChainService).BuildLogLeaf"); fn != nil {
-		if m := r.OneCall(fn, "indirect.BuildLogLeaf:marshal", "asn1.Marshal"); m != nil {
-			r.ExpectArg(m, "indirect.BuildLogLeaf:chain", 0, "trillian/ctfe.extractRawCerts(p2)[1:]")
-		}
-		if a := r.OneCall(fn, "indirect.BuildLogLeaf:add", "(*trillian/ctfe.indirectIssuanceChainService).add"); a != nil {
-			r.ExpectArg(a, "indirect.BuildLogLeaf:add.chain", 2, "asn1.Marshal(*)#0")
-		}
-		if b := r.OneCall(fn, "indirect.BuildLogLeaf:build", "trillian/util.BuildLogLeafWithChainHash"); b != nil {
-			r.ExpectArg(b, "indirect.BuildLogLeaf:leaf", 1, "*p4")
-			r.ExpectArg(b, "indirect.BuildLogLeaf:cert", 3, "trillian/ctfe.extractRawCerts(p2)[0]")
-			r.ExpectArg(b, "indirect.BuildLogLeaf:hash", 4, "(*trillian/ctfe.indirectIssuanceChainService).add(*)#0")
-			r.ExpectArg(b, "indirect.BuildLogLeaf:isPrecert", 5, "p5")
-		}
-		r.ErrorsGate(fn, "indirect.BuildLogLeaf:errors", "*", 3)
-	}
 	if fn := r.Fn("trillian/util.ExtraDataForChainHash"); fn != nil {
 		r.ExpectStores(fn, "ExtraDataForChainHash:precert.cert", "&(new:ct.PrecertChainEntryHash#0.PreCertificate)", "p0", 1)
 		r.ExpectStores(fn, "ExtraDataForChainHash:precert.hash", "&(new:ct.PrecertChainEntryHash#0.IssuanceChainHash)", "p1", 1)
@@ -317,7 +319,10 @@ func runC14(r *Run) {
 			r.MustGuard(fn, "getByHash:cache-filled-only-after-read", "nil?iface(trillian/ctfe/storage.IssuanceChainStorage).FindByKey(*)#1", "non", gos, "cache fill")
 			g := gos[0].(*ssa.Go)
 			k, v, why := c14CacheFill(r, g)
-			r.Check("getByHash:cache-fill.args", k != nil && c14D(r, fn, k) == "p2" && glob("iface(trillian/ctfe/storage.IssuanceChainStorage).FindByKey(*)#0", c14D(r, fn, v)), r.Where(g), "cache filled with (hash, chain read) "+why)
+			if k != nil && v != nil {
+				why = "— it is filled with (" + clipStr(c14D(r, fn, k), 110) + ", " + clipStr(c14D(r, fn, v), 110) + ")"
+			}
+			r.Check("getByHash:cache-fill.args", k != nil && c14D(r, fn, k) == "p2" && glob("iface(trillian/ctfe/storage.IssuanceChainStorage).FindByKey(*)#0", c14D(r, fn, v)), r.Where(g), "cache filled with (the hash asked for, the chain read from storage under it) "+why)
 		} else {
 			r.Fail("getByHash:cache-fill", r.FnPos(fn), fmt.Sprintf("%d detached cache fills", len(gos)))
 		}
@@ -557,6 +562,9 @@ func c14ChainStore(r *Run) {
 			}
 			g := gos[0].(*ssa.Go)
 			k, v, why := c14CacheFill(r, g)
+			if k != nil && v != nil {
+				why = "— it is filled with (" + clipStr(c14D(r, fn, k), 110) + ", " + clipStr(c14D(r, fn, v), 110) + ")"
+			}
 			r.Check("add:cache-fill.args", k != nil && c14D(r, fn, k) == "trillian/ctfe.issuanceChainHash(p2)" && c14D(r, fn, v) == "p2", r.Where(g), "cache filled with (hash(chain), chain) "+why)
 		}
 		// cache short-cut only when err == nil && entry != nil
